@@ -410,7 +410,13 @@ func c08Rewrite(c *Ctx) {
 		for _, h := range hdrs {
 			fmt.Fprintf(&rb, "%s: %s\r\n", h.k, h.v)
 		}
-		if len(connTokens) > 0 {
+		if len(connTokens) > 1 && r.IntN(3) == 0 {
+			// the list may legally span several header lines
+			cut := 1 + r.IntN(len(connTokens)-1)
+			fmt.Fprintf(&rb, "Connection: %s\r\n", strings.Join(connTokens[:cut], ", "))
+			fmt.Fprintf(&rb, "Connection: %s\r\n", strings.Join(connTokens[cut:], ","))
+			c.Count("connection_list_on_two_lines", 1)
+		} else if len(connTokens) > 0 {
 			fmt.Fprintf(&rb, "Connection: %s\r\n", strings.Join(connTokens, ", "))
 		}
 		if body != nil {
